@@ -4,6 +4,9 @@ package main
 import (
 	"fmt"
 	"strings"
+	"sync"
+	"sync/atomic"
+	"time"
 
 	"github.com/jech/galene/packetcache"
 	"github.com/jech/galene/zzverif/common"
@@ -65,6 +68,8 @@ func (e *eng) Exec(op []string) string {
 	case "expect":
 		e.c.Expect(a(1))
 		return ""
+	case "stress":
+		return stress(a(1), a(2), a(3))
 	case "tobitmap":
 		xs := make([]uint16, 0, len(op)-1)
 		for i := 1; i < len(op); i++ {
@@ -81,6 +86,90 @@ func (e *eng) Exec(op []string) string {
 	panic("unknown op " + op[0])
 }
 
+// stressPacket builds a self-describing packet for store counter c: the first
+// 4 bytes are c, the rest a pattern derived from c, the length depends on c.
+func stressPacket(c uint32) []byte {
+	n := 8 + int(c%1400)
+	b := make([]byte, n)
+	b[0], b[1], b[2], b[3] = byte(c>>24), byte(c>>16), byte(c>>8), byte(c)
+	for i := 4; i < n; i++ {
+		b[i] = byte(uint32(i)*7 + c*13)
+	}
+	return b
+}
+
+func checkStress(seqno uint16, got []byte) string {
+	if len(got) < 8 {
+		return fmt.Sprintf("bad:short(%d)", len(got))
+	}
+	c := uint32(got[0])<<24 | uint32(got[1])<<16 | uint32(got[2])<<8 | uint32(got[3])
+	if uint16(c) != seqno {
+		return fmt.Sprintf("bad:seqno-%d-holds-packet-of-%d", seqno, uint16(c))
+	}
+	want := stressPacket(c)
+	if len(want) != len(got) {
+		return fmt.Sprintf("bad:length-%d-want-%d", len(got), len(want))
+	}
+	for i := range want {
+		if want[i] != got[i] {
+			return fmt.Sprintf("bad:byte-%d-differs", i)
+		}
+	}
+	return ""
+}
+
+// stress: one writer (Store, occasional Resize) and several readers (Get, GetAt
+// on the most recent seqno/index) on a small cache; every returned packet must
+// be byte-exactly a packet stored under that seqno (C05, concurrent readers).
+func stress(capacity, readers, ms int) string {
+	c := packetcache.New(capacity)
+	var latest atomic.Uint64 // seqno<<16 | index
+	var stop atomic.Bool
+	var bad atomic.Value
+	var wg sync.WaitGroup
+	for r := 0; r < readers; r++ {
+		wg.Add(1)
+		go func(r int) {
+			defer wg.Done()
+			buf := make([]byte, packetcache.BufSize)
+			for !stop.Load() {
+				l := latest.Load()
+				seqno, idx := uint16(l>>16), uint16(l)
+				var n uint16
+				if r%2 == 0 {
+					n = c.GetAt(seqno, idx, buf)
+				} else {
+					n = c.Get(seqno, buf)
+				}
+				if n > 0 {
+					if msg := checkStress(seqno, buf[:n]); msg != "" {
+						bad.CompareAndSwap(nil, msg)
+						return
+					}
+				}
+			}
+		}(r)
+	}
+	deadline := time.Now().Add(time.Duration(ms) * time.Millisecond)
+	ctr := uint32(1)
+	for time.Now().Before(deadline) && bad.Load() == nil {
+		for k := 0; k < 200; k++ {
+			_, idx := c.Store(uint16(ctr), ctr, false, ctr%3 == 0, stressPacket(ctr))
+			latest.Store(uint64(uint16(ctr))<<16 | uint64(idx))
+			ctr++
+		}
+		if ctr%5000 < 200 {
+			c.Resize(capacity + int(ctr%3))
+		}
+	}
+	stop.Store(true)
+	wg.Wait()
+	if m := bad.Load(); m != nil {
+		return m.(string)
+	}
+	return "ok"
+}
+
 var caps = []int{1, 2, 3, 4, 7, 16, 31, 32, 33, 128, 1024, 65535}
 var sizes = []int{1, 2, 12, 100, 1200, 1503, 1504}
 
@@ -90,6 +179,16 @@ func gen(t *common.Trace, e common.Engine, r *common.Rng, thorough bool) {
 	if thorough {
 		ncases = 6000
 		nops = 1500
+	}
+	// concurrent readers against one writer (C05)
+	t.Case("stress")
+	e.Reset()
+	for _, capacity := range []int{2, 3, 16} {
+		ms := 60
+		if thorough {
+			ms = 1500
+		}
+		common.Do(t, e, fmt.Sprintf("stress %d %d %d", capacity, 6, ms))
 	}
 	for ci := 0; ci < ncases; ci++ {
 		t.Case(fmt.Sprint(ci))
